@@ -76,7 +76,7 @@ def make_case(r, root, op):
         if r.random() < 0.02:
             # big: a chain of 60 nested directories and a directory with several hundred entries
             deep = ldir
-            for i in range(60):
+            for i in range(r.choice([60, 90, 130])):
                 deep = os.path.join(deep, "n%d" % i)
                 os.mkdir(deep)
             links.append((os.path.join(deep, "l-out"), r.choice(["canary-dir", "sib-dir", "hard-canary-file"])))
